@@ -128,6 +128,10 @@ pub fn dash_path(path: &Path, dash_array: &[f32], mut dash_offset: f32) -> Path 
                         dashed.move_to(pt.x, pt.y);
                     }
                     state.remaining_length -= len;
+                } else {
+                    // a line_to without a current point starts a subpath at its point, like move_to
+                    start_point = Some(pt);
+                    dashed.move_to(pt.x, pt.y);
                 }
                 cur_pt = Some(pt);
             }
